@@ -1,8 +1,7 @@
 /-
 C14 "small", helper lemmas part 19 (Mathlib): Montgomery's three-term property derived from an
 extended invariant `VInv` that adds the directions `V_m` to the ghost history.  What is proved here:
-`VInv` (with `LInv`) IMPLIES the hypothesis `h3` of the checked inductive step.  What is not proved:
-that a step preserves `VInv` (see the docstring of `VInv`).
+`VInv` (with `LInv`) IMPLIES the hypothesis `h3` of the checked inductive step.
 -/
 import Ymq.Lemmas.Gf2SmallLoopRun
 
@@ -37,29 +36,130 @@ theorem projS_zero : projS 0 = 0 := by
   funext t
   rw [Nat.zero_testBit]; rfl
 
+theorem pc_self (Ss : List Nat) (m : Nat) : pc Ss m m = M64 := by
+  simp [pc]
+
+theorem pc_succ (Ss : List Nat) {m t : Nat} (hmt : m ≤ t) :
+    pc Ss m (t + 1) = pc Ss m t &&& (M64 ^^^ Ss.getD t 0) := by
+  unfold pc
+  rw [show t + 1 - m = (t - m) + 1 by omega, List.range'_concat, List.foldl_append]
+  simp only [List.foldl_cons, List.foldl_nil]
+  rw [show m + 1 * (t - m) = t by omega]
+
+theorem pc_append (Ss : List Nat) (x : Nat) {m t : Nat} (ht : t ≤ Ss.length) :
+    pc (Ss ++ [x]) m t = pc Ss m t := by
+  unfold pc
+  apply List.foldl_ext
+  intro a l hl
+  rw [List.mem_range'] at hl
+  obtain ⟨i, hi, rfl⟩ := hl
+  rw [getD_append_singleton, if_pos (by omega)]
+
+theorem projS_and (a b : Nat) : projS (a &&& b) = projS a * projS b := by
+  rw [projS, projS, projS, Matrix.diagonal_mul_diagonal]
+  congr 1
+  funext t
+  rw [Nat.testBit_and]
+  cases a.testBit t.1 <;> cases b.testBit t.1 <;> decide
+
+theorem projS_compl (S : Nat) : projS (M64 ^^^ S) = 1 - projS S := by
+  rw [projS, projS, ← Matrix.diagonal_one, Matrix.diagonal_sub]
+  congr 1
+  funext t
+  have : M64.testBit t.1 = true := by
+    rw [M64, Nat.testBit_two_pow_sub_one]; simp [t.2]
+  rw [Nat.testBit_xor, this]
+  cases S.testBit t.1 <;> decide
+
+theorem foldlM_masks (masks : List Nat) (cnt : Nat) : ∀ (s a : Nat), 1 ≤ s → s - 1 + cnt ≤ masks.length →
+    (List.range' s cnt).foldlM (fun m k => match masks[k - 1]? with
+      | none => none
+      | some x => some (m &&& x)) a =
+    some ((List.range' (s - 1) cnt).foldl (fun a l => a &&& masks.getD l 0) a) := by
+  induction cnt with
+  | zero => intro s a _ _; rfl
+  | succ cnt ih =>
+    intro s a hs hle
+    rw [List.range'_succ, List.foldlM_cons, List.range'_succ, List.foldl_cons]
+    have hlt : s - 1 < masks.length := by omega
+    rw [List.getElem?_eq_getElem hlt]
+    have hg : masks.getD (s - 1) 0 = masks[s - 1] := by
+      simp [List.getD_eq_getElem?_getD, List.getElem?_eq_getElem hlt]
+    rw [hg]
+    have := ih (s + 1) (a &&& masks[s - 1]) (by omega) (by omega)
+    rw [show s + 1 - 1 = s - 1 + 1 by omega] at this
+    exact this
+
+/-- the mask computed by the code is the ghost mask: `masks[l] = !S_l` for `l ≥ 1` -/
+theorem maskFor_eq_pc {masks Ss : List Nat} {L j : Nat} (hL : masks.length = L) (hj : j < L)
+    (hrel : ∀ l, 1 ≤ l → l < L → masks.getD l 0 = M64 ^^^ Ss.getD l 0) :
+    maskFor masks j L = some (pc Ss (j + 1) (L - 1)) := by
+  unfold maskFor pc
+  refine Eq.trans (foldlM_masks masks _ (j + 2) M64 (by omega) (by omega)) ?_
+  congr 1
+  rw [show j + 2 - 1 = j + 1 by omega, show L - (j + 2) = L - 1 - (j + 1) by omega]
+  apply List.foldl_ext
+  intro a l hl
+  rw [List.mem_range'] at hl
+  obtain ⟨i, hi, rfl⟩ := hl
+  rw [hrel _ (by omega) (by omega)]
+
 /-- Extended invariant: `vhist` lists every direction `V_m`; `L = st.ws.length`, `i = L - 1`.
 * `recur`: the recurrence `V_{j+1} = A·W_j + V_j + Σ_{l ≤ j} W_l c_l`, read against any block `X`
   A-orthogonal to `W_0 … W_j`;
-* `dd`: every vector of `V_m` selected in one of the blocks `m … i-1` lies, modulo the earlier `W`'s, in
-  the span of the `W`'s: against a block `X` A-orthogonal to `W_0 … W_{i-1}` it vanishes;
-* `notProj`: a block that is no longer projected (purged, or consumed now) has `!S_{j+1} & … & !S_{i-1} = 0`
-  (the purge condition `mask == 0`; `masks[l] = !S_l`).
-NOT PROVED: preservation of `VInv` by `lanczosStep` (for `dd`: the columns of `V_{i+1}` outside `S_i` are
-those of `V_i` modulo the `W`'s because `A·W_i` vanishes there; for `notProj`: `maskFor masks j L` is
-`pc Ss (j+1) (L-1)`), and its base case. -/
+* `cc`, `dd`: against a block `X` A-orthogonal to `W_0 … W_{i-1}`, the vectors of `V_m` not selected in the
+  blocks `m … i-1` are those of `V_i`, the selected ones vanish;
+* `masksRel`, `purged`: `masks[l] = !S_l`, and a purged block has `!S_{j+1} & … & !S_{i-1} = 0`
+  (the purge condition `mask == 0`). -/
 structure VInv (k : Nat) (cols : List (List Nat)) (st : LState) (hist vhist : List (List Nat)) (Ss : List Nat) :
     Prop where
+  lenVh : vhist.length = st.ws.length
   lastW : st.ws.getLast? = some (hist.getD (st.ws.length - 1) [])
   lastV : st.vs.getLast? = some (vhist.getD (st.ws.length - 1) [])
+  wvLast : CM cols.length (hist.getD (st.ws.length - 1) []) =
+    CM cols.length (vhist.getD (st.ws.length - 1) []) * projS (Ss.getD (st.ws.length - 1) 0)
   vOrth : ∀ l, l + 1 < st.ws.length → Q k cols (hist.getD l []) (vhist.getD (st.ws.length - 1) []) = 0
   recur : ∀ j, j + 1 < st.ws.length → ∀ X, BlockOK cols.length X → (∀ l, l ≤ j → Q k cols X (hist.getD l []) = 0) →
     (CM cols.length X)ᵀ * gramA k cols * (gramA k cols * CM cols.length (hist.getD j [])) =
       Q k cols X (vhist.getD (j + 1) []) + Q k cols X (vhist.getD j [])
+  cc : ∀ m, m < st.ws.length → ∀ X, BlockOK cols.length X →
+    (∀ l, l + 1 < st.ws.length → Q k cols X (hist.getD l []) = 0) →
+    Q k cols X (vhist.getD m []) * projS (pc Ss m (st.ws.length - 1)) =
+      Q k cols X (vhist.getD (st.ws.length - 1) []) * projS (pc Ss m (st.ws.length - 1))
   dd : ∀ m, m < st.ws.length → ∀ X, BlockOK cols.length X →
     (∀ l, l + 1 < st.ws.length → Q k cols X (hist.getD l []) = 0) →
     Q k cols X (vhist.getD m []) * (1 - projS (pc Ss m (st.ws.length - 1))) = 0
-  notProj : ∀ j, j < st.ws.length → ¬ Projected st.ws st.masks st.ws.length j →
+  masksRel : ∀ l, 1 ≤ l → l < st.ws.length → st.masks.getD l 0 = M64 ^^^ Ss.getD l 0
+  purged : ∀ (j : Nat) (w : List Nat), st.ws[j]? = some w → w.isEmpty = true →
     j + 1 < st.ws.length ∧ pc Ss (j + 1) (st.ws.length - 1) = 0
+
+theorem M64_ne_zero : M64 ≠ 0 := by decide
+
+/-- a block that is no longer projected has `!S_{j+1} & … & !S_{i-1} = 0` -/
+theorem VInv.notProj {k : Nat} {cols : List (List Nat)} {st : LState} {hist vhist : List (List Nat)} {Ss : List Nat}
+    (hV : VInv k cols st hist vhist Ss) (hMk : st.masks.length = st.ws.length) :
+    ∀ j, j < st.ws.length → ¬ Projected st.ws st.masks st.ws.length j →
+      j + 1 < st.ws.length ∧ pc Ss (j + 1) (st.ws.length - 1) = 0 := by
+  intro j hj hnp
+  have hgD : st.ws.getD j [] = st.ws[j]'hj := by
+    simp [List.getD_eq_getElem?_getD, List.getElem?_eq_getElem hj]
+  by_cases he : (st.ws[j]'hj).isEmpty = true
+  · exact hV.purged j _ (List.getElem?_eq_getElem hj) he
+  · have hm := maskFor_eq_pc (Ss := Ss) hMk hj hV.masksRel
+    have h0 : maskFor st.masks j st.ws.length = some 0 := by
+      apply Classical.byContradiction
+      intro hne
+      exact hnp ⟨by rw [hgD]; simpa using he, hne⟩
+    rw [hm] at h0
+    injection h0 with h0
+    refine ⟨?_, h0⟩
+    apply Classical.byContradiction
+    intro hlt
+    have : pc Ss (j + 1) (st.ws.length - 1) = M64 := by
+      unfold pc
+      rw [show st.ws.length - 1 - (j + 1) = 0 by omega]; rfl
+    rw [this] at h0
+    exact M64_ne_zero h0
 
 /-- Montgomery's three-term property: the blocks that are no longer projected are A-orthogonal to the
 new direction `A·W_i ^ V_i` -/
@@ -69,7 +169,7 @@ theorem three_term_of_VInv {k : Nat} {cols : List (List Nat)} (hM : MatOK k cols
     ∀ next0, Direction k cols st next0 → ∀ j, j < st.ws.length →
       ¬ Projected st.ws st.masks st.ws.length j → Q k cols (hist.getD j []) next0 = 0 := by
   rintro next0 ⟨wl, pv, nx, hwl, hpv, hnx, rfl⟩ j hj hnp
-  obtain ⟨hj1, hpc⟩ := hV.notProj j hj hnp
+  obtain ⟨hj1, hpc⟩ := hV.notProj hInv.wf.lenM j hj hnp
   -- the last blocks
   have ewl : wl = hist.getD (st.ws.length - 1) [] := by
     have := hV.lastW; rw [hwl] at this; injection this
